@@ -5,6 +5,7 @@ import (
 	"bytes"
 	stdjson "encoding/json"
 	"fmt"
+	"math"
 	"strconv"
 	"strings"
 	"unsafe"
@@ -150,7 +151,7 @@ func validateModel(doc []byte, toks []tok) error {
 
 // ---- document enumeration
 
-var scalars = []string{"1", `"a"`, "null", "true", "-1.5e3", `"\n"`, `""`, "false", "0", `"éé😀"`, "18446744073709551615", "-9223372036854775808"}
+var scalars = []string{"1", `"a"`, "null", "true", "-1.5e3", `"\n"`, `""`, "false", "0", `"éé😀"`, "18446744073709551615", "-9223372036854775808", "18446744073709551616", "-9223372036854775809", "-0", "123456789012345678901234567890", "0.1e-2", "1E5"}
 
 // genValue builds one document from explorer choices. width bounds the number of members.
 func genValue(c *explore.Ctx, depth, width int, sp bool, b *strings.Builder) {
@@ -364,7 +365,7 @@ func checkScalar(c *explore.Ctx, raw string, g seen, where string) {
 			c.Fail("kind:number", "%s: Kind %d", where, g.kind)
 		}
 		f, _ := strconv.ParseFloat(raw, 64)
-		if g.f64 != f {
+		if math.Float64bits(g.f64) != math.Float64bits(f) {
 			c.Fail("Float()", "%s: Float() %v, want %v", where, g.f64, f)
 		}
 		if i, err := strconv.ParseInt(raw, 10, 64); err == nil && g.i64 != i {
@@ -523,7 +524,7 @@ func Spec() *explore.Spec {
 					return 1500
 				}
 				return 0
-			}, Doc: "every document of a grammar with nesting depth <= 2 and <= 2 members per container (thorough: 3 members), 12 scalars, empty containers inside non-empty ones x {no white space, a space in every gap}: token-by-token equality with a reference model (validated against encoding/json's Token stream on every document): Value, Delim, Depth/Index/IsKey of scalars and opening delimiters, in-place Values, Kind, String/Int/Uint/Float/Bool, RawValue predicates, Unquote/AppendUnquote, concatenation == Compact"},
+			}, Doc: "every document of a grammar with nesting depth <= 2 and <= 2 members per container (thorough: 3 members), 18 scalars, empty containers inside non-empty ones x {no white space, a space in every gap}: token-by-token equality with a reference model (validated against encoding/json's Token stream on every document): Value, Delim, Depth/Index/IsKey of scalars and opening delimiters, in-place Values, Kind, String/Int/Uint/Float/Bool, RawValue predicates, Unquote/AppendUnquote, concatenation == Compact"},
 			{Name: "arbitrary", ShardDepth: 2, Body: arbitrary, Doc: "all byte strings of length 2..5 (6) over a 24-byte class alphabet: termination, no panic, error stickiness, Reset after error; valid ones checked against the model"},
 			{Name: "histories", ShardDepth: 2, Body: histories, Doc: "all sequences of up to 3 uses of one Tokenizer via Reset over 7 documents x {iterate to the end, abandon after 3 or 7 tokens, abandon while another tokenizer holds a pooled stack} followed by a full tokenisation compared with the model (reused and fresh tokenizer)"},
 		},
